@@ -10,7 +10,7 @@ def _quiet(fn, *a, **k):
         return fn(*a, **k), buf.getvalue()
 
 
-def apply_step(obj, st, via):
+def apply_step(obj, st, via, alt=False):
     """Apply one spec step to a geomdl object.  Returns a dict describing what the call did
     (raised: exception class name or None, printed: text printed by the wrapper)."""
     from geomdl import operations
@@ -28,6 +28,10 @@ def apply_step(obj, st, via):
             prm[st["d"] - 1] = float(fr(st["u"]))
             num[st["d"] - 1] = st["r"]
         opfn = operations.insert_knot if a == "insert" else operations.remove_knot
+        if alt:
+            # the same arguments written differently: tuples, and Python ints for integral parameter values
+            prm = tuple(None if q is None else (int(q) if float(q).is_integer() else q) for q in prm)
+            num = tuple(num)
         if via == "operations":
             try:
                 _quiet(opfn, obj, prm, num)
@@ -49,7 +53,7 @@ def apply_step(obj, st, via):
                 _, out = _quiet(meth, **kw)
             info["printed"] = out
     elif a == "refine":
-        _quiet(operations.refine_knotvector, obj, list(st["dens"]))
+        _quiet(operations.refine_knotvector, obj, tuple(st["dens"]) if alt else list(st["dens"]))
     elif a == "refine_helper":
         from geomdl import helpers
         cpts = obj.ctrlptsw if obj.rational else obj.ctrlpts
@@ -127,19 +131,19 @@ def read_view(obj, v):
 SCALE_FREE = {"insert", "remove", "remove_multi", "refine", "refine_helper", "reverse", "transpose", "flip", "read", "sample_size", "sample_size_dir"}
 
 
-def replay_history(sh0, hist, via, conj=None):
+def replay_history(sh0, hist, via, conj=None, alt_repr=False):
     """conj = s: the history is replayed on the object scaled by s (a power of two, exact in binary floating point) and the result is
     scaled back by 1/s - the operations of SCALE_FREE commute with uniform scaling, so the outcome must be the same definition.
     Shows whether an operation treats very small / very large coordinates differently."""
     from geomdl import operations
-    obj = build(sh0)
+    obj = build(sh0, alt_repr=alt_repr)
     if conj is not None:
         if any(st["a"] not in SCALE_FREE for st in hist):
             raise ValueError("history carries coordinates: not replayable under scaling")
         operations.scale(obj, conj, inplace=True)
     infos = []
     for st in hist:
-        infos.append(apply_step(obj, st, via))
+        infos.append(apply_step(obj, st, via, alt=alt_repr))
     if conj is not None:
         operations.scale(obj, 1.0 / conj, inplace=True)
     return obj, infos
